@@ -10,7 +10,7 @@ NOTE = "libc string functions are reference models (assumed to be what libc does
 EXPLANATION = LEVEL_TEXT
 TRUSTED = ["libc strlen/strcpy/strcat/strstr/memmove behave as the reference models in stubs/libc_str.c", "vsnprintf(NULL,0,..) returns the length vsprintf writes"]
 
-F = {"assign_alias": ["String_Assign"], "concat_alias": ["String_Concat"], "assign": ["String_Assign"], "concat": ["String_Concat"], "resize": ["String_Resize", "String_Len"], "clear": ["String_Clear"], "del": ["String_Del"], "new": ["String_New", "String_Assign"],
+F = {"cmp": ["String_Cmp", "String_C_Str"], "assign_alias": ["String_Assign"], "concat_alias": ["String_Concat"], "assign": ["String_Assign"], "concat": ["String_Concat"], "resize": ["String_Resize", "String_Len"], "clear": ["String_Clear"], "del": ["String_Del"], "new": ["String_New", "String_Assign"],
      "mem_rem": ["String_Mem", "String_Rem", "String_C_Str"], "format_to": ["String_Format_To"]}
 
 def jobs(tier, only=None, prefix="C16"):
@@ -22,13 +22,15 @@ def jobs(tier, only=None, prefix="C16"):
             return
         J.append(Job("%s.String.%s.%s" % (prefix, op, name), "C16", "K3", "String/k3.c", "h_" + op, F[op], link=["src/Exception.c", "stubs/throw.c", "stubs/libc_str.c"],
                      defines=defs, replace_calls=["exception_throw:cv_throw"], unwind=(140 if any(d.startswith("GLEN") for d in defs) else la_max + lb_max + 4), cbmc=["--no-malloc-may-fail"], group="String.%s%s" % (op, ".stack" if stack else ""),
-                     also=["C12", "C19", "C14", "C10"], timeout=300, case=" ".join(defs), replay="C16_string.c",
+                     also=["C12", "C19", "C14", "C10", "C09"], timeout=300, case=" ".join(defs), replay="C16_string.c",
                      bound="String: target length <= %d, operand length <= %d, every byte value except NUL" % (la_max, lb_max)))
     for la in range(0, la_max + 1):
         for lb in range(0, lb_max + 1):
             add("assign", ["LA=%d" % la, "LB=%d" % lb], "a%d.b%d" % (la, lb))
             add("concat", ["LA=%d" % la, "LB=%d" % lb], "a%d.b%d" % (la, lb))
             add("mem_rem", ["LA=%d" % la, "LB=%d" % lb], "a%d.b%d" % (la, lb))
+            if la <= 2:
+                add("cmp", ["LA=%d" % la, "LB=%d" % lb], "a%d.b%d" % (la, lb))
         for r in range(0, la + 3):
             add("resize", ["LA=%d" % la, "RESIZE_TO=%d" % r], "a%d.to%d" % (la, r))
         add("clear", ["LA=%d" % la], "a%d" % la); add("del", ["LA=%d" % la], "a%d" % la)
